@@ -1245,6 +1245,105 @@ EXPECT = {
 }
 
 
+# ------------------------------------------------------------------------------------------------
+# agents added at run time: truth dynamics come from the truth propagation settings, whatever the filter uses
+# ------------------------------------------------------------------------------------------------
+MODELS = ("two_body", "special_perturbations")
+
+
+def _add_sequence(truth_model, filter_model, order):
+    """Real Scenario._addTargetConf / _addSensorConf on a bare Scenario; factories are recording stubs.  Returns the calls."""
+    from resonaate.scenario import scenario as SC
+
+    sc = object.__new__(SC.Scenario)
+    prop = types.SimpleNamespace(propagation_model=truth_model, integration_method="RK45", station_keeping=False, target_realtime_propagation=True,
+                                 sensor_realtime_propagation=True, truth_simulation_only=False)
+    sc.scenario_config = types.SimpleNamespace(propagation=prop, geopotential="geo", perturbations="pert", time="time", noise="noise",
+                                               estimation=types.SimpleNamespace(sequential_filter=types.SimpleNamespace(dynamics_model=filter_model)))
+    sc.clock = "clock"
+    sc.target_agents, sc._estimate_agents, sc._sensor_agents = {}, {}, {}
+    eng = types.SimpleNamespace(addTarget=lambda i: None, addSensor=lambda i: None)
+    sc._tasking_engines = {1: eng}
+    calls = []
+
+    def factory(spec, prop_cfg, geo, pert, clock):
+        calls.append(("dynamics", spec.id, prop_cfg.propagation_model, prop_cfg is sc.scenario_config.propagation))
+        return ("dyn", spec.id, len(calls))
+
+    class TA:
+        @staticmethod
+        def fromConfig(tgt_cfg, clock, dynamics, prop_cfg):
+            calls.append(("truth-target", tgt_cfg.id, dynamics, prop_cfg.propagation_model))
+            return types.SimpleNamespace(simulation_id=tgt_cfg.id)
+
+    class EA:
+        @staticmethod
+        def fromConfig(tgt_cfg, clock, dynamics, time_cfg, noise_cfg, estimation_cfg):
+            calls.append(("estimate", tgt_cfg.id, dynamics))
+            return types.SimpleNamespace(simulation_id=tgt_cfg.id)
+
+    class SA:
+        @staticmethod
+        def fromConfig(sen_cfg, clock, dynamics, prop_cfg):
+            calls.append(("truth-sensor", sen_cfg.id, dynamics, prop_cfg.propagation_model))
+            return types.SimpleNamespace(simulation_id=sen_cfg.id)
+
+    with shadow(SC, dynamicsFactory=factory, TargetAgent=TA, EstimateAgent=EA, SensingAgent=SA):
+        for kind, aid in order:
+            spec = types.SimpleNamespace(id=aid)
+            if kind == "target":
+                SC.Scenario._addTargetConf(sc, spec, 1)
+            else:
+                SC.Scenario._addSensorConf(sc, spec, 1)
+    return calls, sc.scenario_config.propagation.propagation_model
+
+
+def replay_add(d):
+    calls, after = _add_sequence(MODELS[d["truth"]], MODELS[d["filter"]], [tuple(x) for x in d["order"]])
+    bad = after != MODELS[d["truth"]]
+    dyn_of = {}
+    for c in calls:
+        if c[0] == "dynamics":
+            dyn_of.setdefault(c[1], []).append(c[2])
+    for c in calls:
+        if c[0] in ("truth-target", "truth-sensor"):
+            first = dyn_of[c[1]][0]
+            bad = bad or first != MODELS[d["truth"]] or c[3] != MODELS[d["truth"]]
+    return bool(bad), {"propagation_model_after": after, "dynamics_models_requested": dyn_of, "configured_truth_model": MODELS[d["truth"]], "filter_model": MODELS[d["filter"]]}
+
+
+def o_add_config(rep):
+    """For every choice of truth/filter dynamics model (solver-chosen) and every order of adding two targets and a sensor at run time:
+    each added agent's truth dynamics are requested with the configured truth propagation model, and the scenario's propagation
+    settings are the same after the additions."""
+    import itertools
+
+    orders = [list(p) for p in itertools.permutations([("target", 31), ("target", 32), ("sensor", 41)])]
+    for oi, order in enumerate(orders):
+        def run(order=order):
+            used = set()
+            a, _ta = free_choice("truth_model", 2, used)
+            b, _tb = free_choice("filter_model", 2, used)
+            return a, b, _add_sequence(MODELS[a], MODELS[b], order)
+
+        res = explore(run, max_paths=16)
+        for k, r in enumerate(res):
+            if r.exc is not None:
+                rep.error(f"exception#{oi}", repr(r.exc))
+                continue
+            a, b, (calls, after) = r.out
+            ok = after == MODELS[a]
+            first_dyn = {}
+            for c in calls:
+                if c[0] == "dynamics" and c[1] not in first_dyn:
+                    first_dyn[c[1]] = c[2]
+            for c in calls:
+                if c[0] in ("truth-target", "truth-sensor"):
+                    ok = ok and first_dyn[c[1]] == MODELS[a] and c[3] == MODELS[a]
+            rep.prove(f"add-config[order {oi}]#{k}", z3.BoolVal(bool(ok)), r.constraints, inputs=lambda m, a=a, b=b, order=order: {"truth": a, "filter": b, "order": order},
+                      replay=replay_add, sample="agents added at run time get truth dynamics of the configured truth model; the propagation settings are not modified by adding agents")
+
+
 def obligations(tier):
     obs = []
     for fam, (expect, tiers) in EXPECT.items():
@@ -1253,6 +1352,8 @@ def obligations(tier):
         name = f"frame-{fam}"
         obs.append(Ob(name, (lambda f, x: lambda rep: o_family(rep, f, x))(fam, expect), f"non-interference of truth, family {fam}: {FAMILIES[fam]}", 880))
         REPLAYS[name] = replay_family
+    obs.append(Ob("add-config", o_add_config, "run-time additions do not change the truth propagation settings", 300))
+    REPLAYS["add-config"] = replay_add
     for dt in ((60, 300) if tier == "quick" else (1, 7, 60, 300, 3080)):
         obs.append(Ob(f"split-count-dt{dt}", (lambda dt: lambda rep: o_split_count(rep, dt))(dt), f"split run requests the same number of steps as the single run, dt={dt}", 880))
         REPLAYS[f"split-count-dt{dt}"] = replay_split
